@@ -38,6 +38,10 @@ pub fn infra<T>(msg: impl Into<String>) -> Result<T, Fail> {
 pub struct CaseStats {
     pub counters: BTreeMap<&'static str, u64>,
     pub nontrivial: bool,
+    /// for cases that enumerate many sub-cases (fault points, kill points): how many were executed
+    pub sub_evaluations: u64,
+    /// one key per distinct non-trivial sub-case
+    pub sub_nontrivial: Vec<u64>,
 }
 
 impl CaseStats {
